@@ -271,7 +271,8 @@ def run(ctx):
     per_at = collections.Counter()
     confirm = []
     order_c = sorted(cand, key=lambda r: (len(r["text64"]), r["id"], r["case"])) + \
-        sorted(reduced, key=lambda r: (-freq[r["at"]], r["at"], len(r["text64"]), r["id"], r["case"]))
+        sorted(reduced, key=lambda r: (-freq[r["at"]], r["at"], r["mut"], -by_id[r["id"]]["size"], len(r["text64"]),
+                                       r["id"], r["case"]))   # (the larger forms are the slower ones)
     for r in order_c:
         if per_at[r["at"]] < 2 and len(confirm) < (8 if quick else 20):
             per_at[r["at"]] += 1
